@@ -10,6 +10,14 @@ from .interp import (Frame, Closure, BoundMethod, SpecRef, Builtin, is_sym, cont
 _MISSING = object()
 
 
+class Event(tuple):
+    """an event of the ghost effect trace: (name, positional arguments..., [returned value]); keyword arguments in .kw"""
+    def __new__(cls, items, kw=None):
+        o = super().__new__(cls, items)
+        o.kw = dict(kw or {})
+        return o
+
+
 def floordiv(a, b):
     # Python floor division on mathematical integers; z3 div is floor for b>0
     return z3.If(b > 0, a / b, (-a) / (-b))
@@ -713,7 +721,7 @@ class ExprMixin:
 
     def do_effect(self, name, args, kwargs, may_raise, node, fr):
         """a call that reaches the outside world: an event of the ghost trace; it may fail with the listed exceptions"""
-        self.path.trace.append((name,) + tuple(args))
+        self.path.trace.append(Event((name,) + tuple(args), kwargs))
         ret = None
         if isinstance(may_raise, dict):
             ret, may_raise = may_raise.get('returns'), may_raise.get('raises', [])
@@ -724,7 +732,7 @@ class ExprMixin:
                 raise PyRaise(self.exc_class(exn, fr.module if fr else None), (), node)
         if ret is not None:
             rv = self.sym_of_sort(ret, 'r_' + name, fr)
-            self.path.trace[-1] = self.path.trace[-1] + (rv,)      # the returned value is the last component of the event
+            self.path.trace[-1] = Event(tuple(self.path.trace[-1]) + (rv,), self.path.trace[-1].kw)      # the returned value is the last component of the event
             return rv
         return None
 
